@@ -242,7 +242,76 @@ def m5_prefilled_indexes(S):
             S.witness(ctx, ob, f"n{n}_reach_accept", [], T.and_(acc, *([T.gt(idx[n - 1].t, n)] if n > 1 else [])))
 
 
-OBLIGATIONS = [m1_extension_accessors, m2_frame_guard, m3_molecule_accessors, m4_discovery_decode_uses_verified_readers, m5_prefilled_indexes]
+def m6_block_transactions_reply_guards(S):
+    """The two guards between a peer's BlockTransactions reply and `reconstruct_block` (which does `received_uncles.get(position).expect("have checked the indexes")` for every
+    requested uncle index): `BlockUnclesVerifier::verify` and `BlockTransactionsVerifier::verify` accept ONLY IF the reply carries exactly as many items as were requested and
+    found in the pending compact block, and each item's hash / short id equals the expected one in order.  Requested indexes: 0..2, reply length: 0..3, membership of each
+    index in the compact block and every hash equality symbolic."""
+    ob = "C16.m6"
+    for which, fname, getter, item_key, eqname in (("uncles", "block_uncles_verifier.rs", r"Byte32Vec::get$", r"UncleBlockView::hash$", r"Byte32 as PartialEq>::(ne|eq)$"),
+                                                    ("transactions", "block_transactions_verifier.rs", r"Vec::<Option<ProposalShortId>>::get$|\[Option<ProposalShortId>\]>::get", r"TransactionView::proposal_short_id$", r"ProposalShortId as PartialEq>::(ne|eq)$")):
+        f = [x for x in S.prog.funcs if x.kind == "fn" and x.short == "verify" and fname in x.name and "{closure" not in x.name]
+        if len(f) != 1:
+            raise Inconclusive(f"{fname}::verify: {len(f)} candidates")
+        from mir2smt.exec import ListV
+        for nreq in range(0, 3):
+            for nrep in range(0, 4):
+                ctx = S.ctx(unwind=8)
+                ctx.uninterpreted_unknown_calls = True
+                present = [ctx.bool(f"index{k}_found_in_compact_block") for k in range(nreq)]
+                same = {}
+
+                def nmv(ex, v):
+                    v = deref(ex, v)
+                    return getattr(v, "name", None) or type(v).__name__
+
+                def get(ex, c, a, d, present=present):
+                    i = deref(ex, a[1])
+                    name = repr(i.t)
+                    k = [k for k in range(len(present)) if f"req{k}" in name]
+                    if len(k) != 1:
+                        raise Stop("lookup of an index that is not a requested one: " + name)
+                    if which == "transactions":
+                        # Vec<Option<ProposalShortId>>::get(i).expect(..).clone(): in range by the pending-block invariant; None = transaction already known (prefilled)
+                        return mk_option(True, ex.ctx.ref_to(mk_option(present[k[0]].t, OpaqueV(f"expected{k[0]}", "ProposalShortId"), "Option<ProposalShortId>")), d)
+                    return mk_option(present[k[0]].t, OpaqueV(f"expected{k[0]}", "Byte32"), d)
+
+                def eq(ex, c, a, d, same=same):
+                    x, y = nmv(ex, a[0]), nmv(ex, a[1])
+                    key = tuple(sorted((x, y)))
+                    if key not in same:
+                        same[key] = ex.ctx.bool("eq_" + "_".join(key))
+                    b = same[key]
+                    return BoolV(T.not_(b.t)) if c.endswith("::ne") else b
+                ctx.env = [
+                    (E.rx(r"CompactBlock::(uncles|block_short_ids)$"), E.opaque_call()),
+                    (E.rx(getter), get),
+                    (E.rx(r"Option<ProposalShortId> as Clone>::clone$|Byte32 as Clone>::clone$"), lambda ex, c, a, d: deref(ex, a[0])),
+                    (E.rx(item_key), lambda ex, c, a, d: OpaqueV("key_of." + nmv(ex, a[0]), d)),
+                    (E.rx(eqname), eq),
+                    (E.rx(r"StatusCode::with_context::<"), lambda ex, c, a, d: OpaqueV("rejected", d)),
+                    (E.rx(r"<StatusCode as Into<.*Status>>::into$"), lambda ex, c, a, d: OpaqueV("rejected", d)),
+                    (E.rx(r"Status::ok$"), lambda ex, c, a, d: OpaqueV("accepted", d)),
+                    (E.rx(r"fmt::|format"), E.opaque_call()),
+                ] + list(E.LIST_ADAPTORS)
+                req = ListV(tuple(ctx.int(f"req{k}", "u32") for k in range(nreq)), "[u32]")
+                rep = ListV(tuple(OpaqueV(f"reply{k}", "?") for k in range(nrep)), "[?]")
+                ps = S.run(ctx, f[0], [ctx.ref_to(OpaqueV("cb", "CompactBlock")), ctx.ref_to(req), ctx.ref_to(rep)])
+                tag = f"{which}_req{nreq}_reply{nrep}"
+                S.prove(ctx, ob, f"{tag}_no_panic", [], T.not_(cond_of(panics(ps))))
+                acc = T.or_(*[p.cond() for p in returns(ps) if getattr(p.value, "name", "") == "accepted"])
+                nfound = 0
+                for b in present:
+                    nfound = T.add(nfound, T.ite(b.t, 1, 0))
+                S.prove(ctx, ob, f"{tag}_accepted_only_with_as_many_items_as_requested_and_found", [acc], T.eq(nfound, nrep))
+                if nreq and nrep == nreq:
+                    allp = [b.t for b in present]
+                    S.prove(ctx, ob, f"{tag}_accepted_iff_every_item_matches_in_order", allp,
+                            T.iff(acc, T.and_(*[same[k].t if (k := tuple(sorted((f"expected{j}", f"key_of.reply{j}")))) in same else False for j in range(nreq)])))
+                    S.witness(ctx, ob, f"{tag}_reach_accept", allp, acc)
+
+
+OBLIGATIONS = [m1_extension_accessors, m2_frame_guard, m3_molecule_accessors, m4_discovery_decode_uses_verified_readers, m5_prefilled_indexes, m6_block_transactions_reply_guards]
 
 _P = os.path.join(os.path.dirname(__file__), "..", "kani", "molecule", "gen_molecule.json")
 _OKFILE = os.path.join(os.path.dirname(__file__), "..", "kani", "molecule", "feasible.json")
